@@ -572,6 +572,20 @@ fn do_crl(ctx: &mut Ctx, env: &Env, rng: &mut Rng) {
     let (rows, bad) = tab::compare(ctx, &table, &built, &decoded, &|| case.detail(&der));
     let got: Vec<(Serial, Time)> = catch(|| decoded.revoked_certs().iter().map(|e| (e.user_certificate, e.revocation_date)).collect()).unwrap_or_default();
     echo(ctx, "crl.entries", got == entries);
+    // revocation lookups against what went into the builder, without and with the serial cache
+    {
+        let mut probes: Vec<Serial> = entries.iter().take(64).map(|e| e.0).collect();
+        probes.push(Serial::default());
+        let want: Vec<bool> = probes.iter().map(|p| entries.iter().any(|e| e.0 == *p)).collect();
+        let plain = catch(|| probes.iter().map(|p| decoded.contains(*p)).collect::<Vec<bool>>());
+        echo(ctx, "crl.contains", plain.as_ref().ok() == Some(&want));
+        let cached = catch(|| {
+            let mut c = built.clone();
+            c.cache_serials();
+            probes.iter().map(|p| c.contains(*p)).collect::<Vec<bool>>()
+        });
+        echo(ctx, "crl.cache_serials;contains", cached.as_ref().ok() == Some(&want));
+    }
     echo(ctx, "crl.number", decoded.crl_number() == crl_number);
     ctx.sample(kind, || {
         json!({"entries": entries.len(), "this_update": gen::time_str(this_update), "next_update": gen::time_str(next_update),
